@@ -563,3 +563,50 @@ def interference_battery(rng, kind, to, per_pair, base_id=100):
                         out.append({"op": "poll", "id": base_id, "ch": c})
                         out.append({"op": "poll", "id": ids[c], "ch": c, "tw": 1, "twp": "C15"})
     return out
+
+
+def reset_after_selection(rng, kind, to, step, base_id=700):
+    """C17: reset() after states that differ in the concrete VALUES held (which the abstract
+    alphabet of the edge replay does not distinguish): every (controller, value) MSB for the 14-bit
+    CC scanner, every parameter number (step) for the (N)RPN scanners, on channels with a meaning of
+    their own and a random one; then == new and a twin suffix."""
+    out = []
+    a, b = base_id, base_id + 1
+    chans = [0, 9, 15, 1 + rng.randrange(8)]
+
+    def after(ch, now):
+        out.append({"op": "reset", "id": a})
+        out.append({"op": "new", "id": b, "k": kind, "to": to, "now": now})
+        out.append({"op": "eq", "id": a, "b": b, "xe": True, "xp": "C17"})
+        post = [[176 + ch, 33, 5], [176 + ch, 32, 7]] if kind == "cc14" else [[176 + ch, 6, 42], [176 + ch, 96, 1]]
+        for m in post:
+            out.append({"op": "feed", "id": a, "m": m})
+            out.append({"op": "feed", "id": b, "m": m, "tw": 1, "twp": "C17"})
+        if kind == "poll":
+            out.append({"op": "tick", "id": -1, "dt": to + 1})
+            out.append({"op": "poll", "id": a, "ch": ch})
+            out.append({"op": "poll", "id": b, "ch": ch, "tw": 1, "twp": "C17"})
+
+    for ch in chans:
+        if kind == "cc14":
+            for cn in range(32):
+                for v in range(rng.randrange(step), 128, step):
+                    out.append({"op": "new", "id": a, "k": kind, "to": to})
+                    out.append({"op": "feed", "id": a, "m": [176 + ch, cn, v]})
+                    after(ch, 0)
+        else:
+            nums = sorted(set(SPECIAL_NUMBERS + list(range(rng.randrange(step * 8), 16384, step * 8))))
+            for num in nums:
+                for reg in (1, 0):
+                    out.append({"op": "new", "id": a, "k": kind, "to": to})
+                    x = [176 + ch, 101 if reg else 99, num // 128]
+                    y = [176 + ch, 100 if reg else 98, num % 128]
+                    for m in ([x, y] if rng.random() < 0.5 else [y, x]):
+                        out.append({"op": "feed", "id": a, "m": m})
+                    r = rng.random()
+                    if r < 0.3:
+                        out.append({"op": "feed", "id": a, "m": [176 + ch, 6, rval(rng)]})
+                    elif r < 0.5:
+                        out.append({"op": "feed", "id": a, "m": [176 + ch, 38, rval(rng)]})
+                    after(ch, 0)
+    return out
